@@ -3,6 +3,7 @@
 package ui
 
 import (
+	"servitor/config"
 	"servitor/feed"
 	"servitor/history"
 	"servitor/pub"
@@ -251,6 +252,42 @@ func c07Compare(s *State, r *refUI, label string) {
 		want = h.tag
 	}
 	verifrt.Assert(tagOfItem(s.h.Current().feed.Current()) == want, label+"-highlighted-item")
+}
+
+// VerifC07Preload: the same navigation with a preload window of one item, so
+// that every move loads more of a longer list through the continuation.
+func VerifC07Preload() {
+	saved := config.Parsed.Network.Context
+	config.Parsed.Network.Context = 1
+	defer func() { config.Parsed.Network.Context = saved }()
+	n := 3 + verifrt.Choice("listlen", 3)
+	var list []*refItem
+	var items []pub.Tangible
+	made := map[*refItem]*vItem{}
+	for i := 0; i < n; i++ {
+		it := &refItem{tag: 100 + i}
+		list = append(list, it)
+		items = append(items, it.realise(made))
+	}
+	log := &frameLog{}
+	s := newTestState(30, 8, log)
+	settleState = s
+	r := &refUI{mode: normal}
+	s.m.Lock()
+	s.switchTo(pub.Container(&vContainer{items: items}))
+	s.m.Unlock()
+	r.pages = append(r.pages, &refPage{isList: true, list: list, off: 1})
+	verifrt.Settle()
+	c07Compare(s, r, "initial")
+	for i := 0; i < verifrt.Param("keys", 3); i++ {
+		b := verifrt.Byte("key")
+		verifrt.Assume(verifrt.InSet(b, "jkg"))
+		s.Update(b)
+		verifrt.Settle()
+		r.key(b)
+		c07Compare(s, r, "after-key")
+	}
+	verifrt.Reach("end")
 }
 
 // VerifC07Keys: key sequences over a thread page and a list (or empty) page.
